@@ -122,6 +122,9 @@ func (x *Exec) run(fi *FuncInfo) {
 			st.secStart = st.Snapshot()
 		}
 		for _, c := range ct.ClausesOf("requires") {
+			if strings.HasPrefix(c.Label, "spawn") {
+				continue // holds when the goroutine is spawned, not necessarily when it runs
+			}
 			st.Assume(x.cevalClause(c, st, fr))
 		}
 		for _, c := range ct.ClausesOf("assume") {
